@@ -182,6 +182,32 @@ def family_ctl(max_n=4, depth=2, cap=None, seed=0, kinds=None):
     return out
 
 
+def family_nested_loops():
+    """every placement of break/continue relative to an inner loop inside an outer loop (sizes the skeleton bound does not reach)"""
+    out = []
+    idx = 0
+    for outer in ("W", "F"):
+        for inner in ("W", "F"):
+            for jump in ("B", "C"):
+                for place in ("in_inner", "after_inner", "before_inner", "inner_else_arm"):
+                    idx += 1
+                    j = (jump,)
+                    if place == "in_inner":
+                        body = ((inner, (("A",), ("I", (j,)))), ("A",))
+                    elif place == "after_inner":
+                        body = ((inner, (("A",),)), ("I", (j,)), ("A",))
+                    elif place == "before_inner":
+                        body = (("I", (j,)), (inner, (("A",),)), ("A",))
+                    else:
+                        body = ((inner, (("IE", (("A",),), (j,)),)), ("A",))
+                    sk = ((outer, body), ("O",))
+                    g = Gen()
+                    lines = ["x = a - b"] + render(sk, g, False, 0) + ["out(x)", "return x * 2 + 1"]
+                    out.append(dict(prog(f"nest{idx:03d}", "F-ctl", lines, bounds=dict(LOOP_BOUNDS)), skel=repr(sk),
+                                    stale_continue=continue_in_while(sk)))
+    return out
+
+
 # ---- F-fun / F-cls / F-data: hand-written small programs ---------------------------------------------------------------
 G = "def g(a, k=3):\n    out(a)\n    return a - k\n"
 
@@ -303,13 +329,13 @@ def witnesses():
 
 def quick_family(seed=0):
     progs = family_expr() + family_fun() + family_cls() + family_data() + family_elif()
-    ctl = family_ctl(max_n=3, depth=2, seed=seed)
+    ctl = family_ctl(max_n=3, depth=2, seed=seed) + family_nested_loops()
     return progs, ctl
 
 
 def thorough_family(seed=0):
     progs = family_expr() + family_fun() + family_cls() + family_data() + family_elif()
-    ctl = family_ctl(max_n=4, depth=2, seed=seed)
+    ctl = family_ctl(max_n=4, depth=2, seed=seed) + family_nested_loops()
     return progs, ctl
 
 
